@@ -2,6 +2,7 @@
   C16 — property theorems.  Statements in words: design/C16.md.
 -/
 import Vita.C16.Lemmas
+import Vita.Common.RngLemmas
 namespace Vita.C16
 
 /-! ## hold-out -/
@@ -84,6 +85,14 @@ theorem holdout_history_perm {α} (p : Nat) (calls : List (Nat × (Nat → Nat))
   induction calls generalizing s with
   | nil => exact List.Perm.refl _
   | cons c cs ih => exact (ih _).trans (holdout_perm c.2 p c.1 s)
+
+/-- The index `random::sup(i + 1)` drawn in iteration `i` of the shuffle is at most `i`, for every
+    engine state (libstdc++'s algorithm as modelled in Vita/Common/Rng.lean): `iter_swap` never leaves
+    the array and the model's `swapAt` never takes its out-of-range branch on real draws. -/
+theorem holdout_draw_in_bounds (i : Nat) (e : Vita.Rng.Xo) (hi : i + 1 ≤ 2 ^ 64) :
+    (Vita.Rng.sup (i + 1) e).1 ≤ i := by
+  have := Vita.Rng.sup_lt (i + 1) e (by omega) hi
+  omega
 
 /-! ## dynamic subset selection -/
 
@@ -205,13 +214,6 @@ theorem close_single_set (s : St) :
 theorem targetSizeQ_ok : TsOK targetSizeQ := targetSizeQ_inside
 
 /-! ### whole histories -/
-
-/-- one call of the modelled interface -/
-def applyCall (P : Partitioner) (ts : Nat → Nat) (c : Call) (sel : Nat → Bool) (s : St) : Res :=
-  match c with
-  | .init _ => dssInit P ts sel s
-  | .shake gap g => dssShake P ts gap g sel s
-  | .close _ => dssClose s
 
 theorem applyCall_step (P ts) (hts : TsOK ts) (c sel) (s : St) (hn : 2 ≤ s.tr.length + s.va.length) :
     DssStep c s (applyCall P ts c sel s) := by
